@@ -38,15 +38,28 @@
 #include <vnaerr.h>
 #include <vnaproperty.h>
 
+/* gcc defines __SANITIZE_ADDRESS__, clang only answers __has_feature() */
 #if defined(__SANITIZE_ADDRESS__)
-#include <sanitizer/lsan_interface.h>
 #define HAVE_LSAN 1
+#elif defined(__has_feature)
+#if __has_feature(address_sanitizer)
+#define HAVE_LSAN 1
+#endif
+#endif
+#ifdef HAVE_LSAN
+#include <sanitizer/lsan_interface.h>
 #endif
 
 extern long verif_alloc_count, verif_alloc_arm;
 extern int verif_alloc_fired, verif_alloc_suspend;
 extern const char *verif_alloc_fired_file;
 extern int verif_alloc_fired_line;
+/* failio.c */
+extern int verif_io_kind, verif_io_fired, verif_io_streams;
+extern long verif_io_budget, verif_io_bytes;
+extern FILE *verif_fopen(const char *path, const char *mode,
+	const char *file, int line);
+static int io_fired0;	/* verif_io_fired before the current op */
 
 /* ------------------------------------------------------------------ */
 /* string builder                                                      */
@@ -300,6 +313,9 @@ static const char *errno_name(int e)
     case EPERM: return "EPERM";
     case EFBIG: return "EFBIG";
     case ENAMETOOLONG: return "ENAMETOOLONG";
+    case EMFILE: return "EMFILE";
+    case ENOTTY: return "ENOTTY";
+    case ENFILE: return "ENFILE";
     default:
 	snprintf(tmp, sizeof(tmp), "E%d", e);
 	return tmp;
@@ -662,13 +678,30 @@ static int tokenize(char *line, tok_t *tv, int max)
 /* ------------------------------------------------------------------ */
 static int leakcheck = 1;
 
+/*
+ * LeakSanitizer treats every word of the live stack region as a root, and
+ * the frames of returned library functions (a yaml_emitter_t, a parser
+ * state ...) stay below the stack pointer until something overwrites them:
+ * clear that region before asking, so that a block only such a stale frame
+ * points to is reported.
+ */
+static void __attribute__((noinline)) scrub_stack(void)
+{
+    volatile char pad[384 * 1024];
+
+    for (size_t i = 0; i < sizeof(pad); ++i)
+	pad[i] = 0;
+}
+
 static void end_case(void)
 {
     int leaks = 0;
     free_all();
 #ifdef HAVE_LSAN
-    if (leakcheck)
+    if (leakcheck) {
+	scrub_stack();
 	leaks = __lsan_do_recoverable_leak_check();
+    }
 #endif
     if (cur_case[0] != 0) {
 	fprintf(logfp, "{\"case_end\":\"%s\",\"leaks\":%d}\n", cur_case, leaks);
@@ -686,6 +719,8 @@ static void emit_event(ctx_t *c, int faulted, long a0, long a1)
 {
     sb_t line = {0};
     sb_printf(&line, "{\"i\":%d,\"op\":\"%s\"", c->lineno, c->op);
+    if (verif_io_fired > io_fired0)
+	sb_printf(&line, ",\"iofired\":%d", verif_io_fired - io_fired0);
     if (c->skipped) {
 	sb_printf(&line, ",\"skipped\":\"%s\"",
 		c->skip_why ? c->skip_why : "");
@@ -772,6 +807,7 @@ int main(int argc, char **argv)
 	    n = tokenize(line, tv, MAXTOK);
 	    if (n >= 2 && strcmp(tv[0].s, "!case") == 0) {
 		end_case();
+		verif_io_kind = 0;
 		snprintf(cur_case, sizeof(cur_case), "%s", tv[1].s);
 		case_line0 = lineno;
 		fprintf(logfp, "{\"case\":\"%s\",\"i\":%d}\n", cur_case, lineno);
@@ -836,6 +872,7 @@ retry:
 	cur_op = c->op;
 	long a0 = verif_alloc_count;
 	verif_alloc_fired = 0;
+	io_fired0 = verif_io_fired;
 	if (watchdog_secs > 0)
 	    alarm(watchdog_secs);
 	struct timespec ts0, ts1;
